@@ -316,9 +316,17 @@ where
             }
         };
 
-        sink.close()
+        // Closing the sink can fail (for example when the connection is already broken). The
+        // terminal event still needs to be sent in that case, so the error is folded into the
+        // session result instead of returning early.
+        let close_result = sink
+            .close()
             .await
-            .map_err(|err| TopicLogSyncChannelError::MessageSink(format!("{err:?}")))?;
+            .map_err(|err| TopicLogSyncChannelError::MessageSink(format!("{err:?}")));
+        let result = match (result, close_result) {
+            (Ok(()), Err(err)) => Err(err.into()),
+            (result, _) => result,
+        };
 
         let final_event = match result.as_ref() {
             Ok(_) => {
